@@ -52,6 +52,8 @@ def _num(v) -> float:
 class H:
     """Context handed to a harness function."""
 
+    use_defaults = True
+
     def __init__(self, mode, values=None, seed=0):
         assert mode in ("sym", "conc", "fold")
         self.mode = mode
@@ -76,8 +78,13 @@ class H:
     def _value(self, name, lo, hi, default=None):
         if name in self.values:
             return float(self.values[name])
-        if default is not None:
+        if default is not None and self.use_defaults:
+            self.values[name] = float(default)
             return float(default)
+        if lo is not None and hi is not None and lo > 0 and hi / lo > 100:
+            v = math.exp(self.rng.uniform(math.log(lo * 1.5), math.log(hi / 1.5)))
+            self.values[name] = v
+            return v
         if lo is None and hi is None:
             v = self.rng.uniform(-2, 2)
         elif lo is None:
@@ -187,7 +194,7 @@ class H:
         elif not cond.b:
             raise PathAbort("assumption false")
 
-    def prove(self, name, cond, conc=None, drop_pc=False):
+    def prove(self, name, cond, conc=None, drop_pc=False, subst=None, extra=None):
         """Queue/evaluate a claim.  `conc`: optional callable evaluated instead of `cond` in
         conc mode (e.g. a finite-difference check for derivative claims).  `drop_pc`: discharge
         under the side constraints only (used for limit/continuity claims obtained by
@@ -199,7 +206,11 @@ class H:
             return
         cond = core._lift_cond(cond)
         if self.mode == "sym":
-            self.obligations.append((name, cond.term(), drop_pc))
+            # subst: change of variables [(z3 var, z3 term)] applied to claim and constraints
+            # before the query (with `extra` constraints on the new variables); the harness
+            # must separately establish that the change of variables is onto.
+            self.obligations.append((name, cond.term(),
+                                     {"drop_pc": drop_pc, "subst": subst, "extra": extra or []}))
         elif self.mode == "fold":
             t = z3.simplify(cond.term())
             if z3.is_true(t) or z3.is_false(t):
@@ -327,9 +338,10 @@ class HarnessDef:
         self.finding_tags = finding_tags or {}
 
 
-def _run_mode(hdef, case, mode, values=None, seed=0):
+def _run_mode(hdef, case, mode, values=None, seed=0, use_defaults=True):
     """Run the harness once in conc / fold mode.  Returns (h, outcome)."""
     h = H(mode, values=dict(values or {}), seed=seed)
+    h.use_defaults = use_defaults
     outcome = None
     if mode == "fold":
         e = Engine(timeout_ms=5000)
@@ -351,11 +363,13 @@ def _run_mode(hdef, case, mode, values=None, seed=0):
     return h, outcome
 
 
-def _model_values(model, h, engine):
+def _model_values(model, h, engine, subst=None):
     vals = {}
     for name, t, _lo, _hi in h.inputs:
         if t is None:
             continue
+        if subst:
+            t = z3.substitute(t, *subst)
         v = model.eval(t, model_completion=True)
         try:
             vals[name] = _num(v)
@@ -441,7 +455,8 @@ def run_job(hdef, case, tier="quick", seed=0, replay_budget=6):
         cons = e.constraints()
         axioms = e.current_axioms()
         solver = z3.Solver()
-        solver.set("timeout", int(timeout_s * 1000))
+        solver.set("timeout", int(min(timeout_s, 10) * 1000))
+        solver.set("rlimit", int(min(timeout_s, 10) * 4e6))
         solver.add(cons)
         solver.add(axioms)
         # ---- vacuity twin: the path itself must be satisfiable
@@ -458,7 +473,17 @@ def run_job(hdef, case, tier="quick", seed=0, replay_budget=6):
             stats["aborted"] += 1
             continue
         else:
-            stats["inconclusive"].append(f"path reachability unknown ({hdef.name})")
+            # fall back to a concrete witness that the assumption set is satisfiable
+            wit = False
+            for k in range(5):
+                hc, oc = _run_mode(hdef, case, "conc", None, seed * 77 + k)
+                if oc[0] == "ok":
+                    wit = True
+                    break
+            if wit:
+                stats["vacuity_concrete_witness"] = stats.get("vacuity_concrete_witness", 0) + 1
+            else:
+                stats["inconclusive"].append(f"path reachability unknown ({hdef.name})")
         # ---- unexpected exception escaping the harness
         if outcome[0] == "raise":
             ex = outcome[1]
@@ -478,7 +503,9 @@ def run_job(hdef, case, tier="quick", seed=0, replay_budget=6):
                     f"{hdef.name}{_case_repr(case)}: exception on symbolic path not reproduced "
                     f"concretely: {type(ex).__name__}: {ex}")
         # ---- obligations
-        for name, claim, drop_pc in h.obligations:
+        for name, claim, opts in h.obligations:
+            drop_pc = opts["drop_pc"]
+            subst = opts["subst"]
             claim = z3.simplify(claim)
             if z3.is_true(claim):
                 stats["concrete_true"] = stats.get("concrete_true", 0) + 1
@@ -495,10 +522,56 @@ def run_job(hdef, case, tier="quick", seed=0, replay_budget=6):
             osolver = z3.Solver()
             osolver.set("timeout", int(timeout_s * 1000))
             osolver.set("rlimit", int(timeout_s * 4e6))
-            osolver.add(e.side if drop_pc else cons)
-            osolver.add(axioms)
+            ocons = list(e.side if drop_pc else cons)
+            oax = list(axioms)
+            if subst:
+                claim = z3.substitute(claim, *subst)
+                ocons = [z3.substitute(c, *subst) for c in ocons] + list(opts["extra"])
+                oax = [z3.substitute(c, *subst) for c in oax]
+            base = ocons + oax
+            # cone of influence: constraints sharing (transitively) a variable with the claim.
+            # Fewer constraints => unsat stays sound; a sat answer is re-checked on the full set.
+            coned = _cone(ocons, claim, oax)
+            if len(coned) < len(base):
+                pre = z3.Solver()
+                pre.set("timeout", int(timeout_s * 1000))
+                pre.set("rlimit", int(timeout_s * 4e6))
+                pre.add(coned)
+                pre.add(z3.Not(claim))
+                t = time.time()
+                r0 = str(pre.check())
+                stats["solver_s"] += time.time() - t
+                stats["queries"] += 1
+                if r0 == "unsat":
+                    stats["unsat"] += 1
+                    stats["cone_reduced"] = stats.get("cone_reduced", 0) + 1
+                    if len(stats["samples"]) < 3:
+                        stats["samples"].append({
+                            "harness": hdef.name, "case": _case_repr(case), "obligation": name,
+                            "path_condition": [str(c)[:120] for c in e.pc[:6]],
+                            "claim": str(claim)[:300], "verdict": "unsat"})
+                    continue
+            osolver.add(base)
             osolver.add(z3.Not(claim))
             verdict = None
+            # cheap attempt: does the path's own model already falsify the claim?
+            if path_model is not None and not subst:
+                try:
+                    pv = path_model.eval(claim, model_completion=True)
+                except z3.Z3Exception:
+                    pv = None
+                if pv is not None and z3.is_false(pv):
+                    vals = _model_values(path_model, h, e)
+                    hc, oc = _run_mode(hdef, case, "conc", vals, seed)
+                    failed = [n for n, ok in hc.obligations if n == name and not ok]
+                    if failed and oc[0] != "abort":
+                        verdict = "violation"
+                        stats["violations"].append({
+                            "harness": hdef.name, "case": case, "obligation": name,
+                            "values": vals, "detail": "z3 model of the path falsifies the claim; "
+                            "reproduced by concrete re-execution"})
+                        stats["sat_replayed"] += 1
+                        continue
             for _attempt in range(replay_budget):
                 t = time.time()
                 r = str(osolver.check())
@@ -511,7 +584,7 @@ def run_job(hdef, case, tier="quick", seed=0, replay_budget=6):
                     verdict = "unknown"
                     break
                 m = osolver.model()
-                vals = _model_values(m, h, e)
+                vals = _model_values(m, h, e, subst)
                 hc, oc = _run_mode(hdef, case, "conc", vals, seed)
                 failed = [n for n, ok in hc.obligations if n == name and not ok]
                 if failed and oc[0] != "abort":
@@ -532,8 +605,24 @@ def run_job(hdef, case, tier="quick", seed=0, replay_budget=6):
                 stats["inconclusive"].append(f"{hdef.name}{_case_repr(case)}:{name}: sat models "
                                              "did not reproduce concretely")
             else:
-                stats["unknown"] += 1
-                stats["inconclusive"].append(f"{hdef.name}{_case_repr(case)}:{name}: solver unknown")
+                # the solver could not decide: use random concrete executions as a model
+                # finder (a failing real execution is a counterexample whatever found it)
+                found = None
+                for k in range(12):
+                    hc, oc = _run_mode(hdef, case, "conc", None, seed * 131 + k, use_defaults=False)
+                    if oc[0] != "abort" and [n for n, ok in hc.obligations if n == name and not ok]:
+                        found = dict(hc.values)
+                        break
+                if found is not None:
+                    stats["sat_replayed"] += 1
+                    stats["violations"].append({
+                        "harness": hdef.name, "case": case, "obligation": name, "values": found,
+                        "detail": "solver returned unknown; counterexample found by random "
+                                  "concrete execution of the real code"})
+                else:
+                    stats["unknown"] += 1
+                    stats["inconclusive"].append(
+                        f"{hdef.name}{_case_repr(case)}:{name}: solver unknown")
             if len(stats["samples"]) < 3:
                 stats["samples"].append({
                     "harness": hdef.name, "case": _case_repr(case), "obligation": name,
@@ -545,19 +634,19 @@ def run_job(hdef, case, tier="quick", seed=0, replay_budget=6):
             _validate(hdef, case, vals, seed, stats)
     # ---- random-point validation (harness without oracle values)
     for i in range(hdef.random_validation):
-        _validate(hdef, case, None, seed * 1000 + i, stats)
+        _validate(hdef, case, None, seed * 1000 + i, stats, use_defaults=(i == 0))
     stats["wall_s"] = time.time() - t0
     stats["distinct"] = sorted(stats["distinct"])
     stats["lifted_constants"] = core.lift_stats()["lifted"]
     return stats
 
 
-def _validate(hdef, case, vals, seed, stats):
+def _validate(hdef, case, vals, seed, stats, use_defaults=True):
     """conc and fold runs from the same input values must agree on observations, and the
     conc run must satisfy every obligation when the tree is healthy (a failing obligation
     here is a violation found without the solver: it is reported as one, it is real code on
     real floats)."""
-    hc, oc = _run_mode(hdef, case, "conc", vals, seed)
+    hc, oc = _run_mode(hdef, case, "conc", vals, seed, use_defaults)
     if oc[0] == "abort":
         return
     vals2 = dict(hc.values)
@@ -594,6 +683,44 @@ def _validate(hdef, case, vals, seed, stats):
                 f"translator validation mismatch {hdef.name}{_case_repr(case)} {name}: "
                 f"float={cv!r} symbolic={fv!r}")
             break
+
+
+def _vars(t, memo):
+    k = t.get_id()
+    if k in memo:
+        return memo[k]
+    if z3.is_const(t):
+        r = frozenset() if (z3.is_rational_value(t) or z3.is_true(t) or z3.is_false(t)
+                            or z3.is_algebraic_value(t)) else frozenset([str(t)])
+    elif z3.is_app(t) and t.decl().kind() == z3.Z3_OP_UNINTERPRETED:
+        # a UF application is itself an atom (and links its arguments)
+        r = frozenset([t.decl().name() + "()"]).union(*[_vars(c, memo) for c in t.children()])
+    else:
+        r = frozenset().union(*[_vars(c, memo) for c in t.children()]) if t.children() else frozenset()
+    memo[k] = r
+    return r
+
+
+def _cone(cons, claim, axioms=()):
+    memo = {}
+    cv = [(_vars(c, memo), c) for c in cons]
+    reach = set(_vars(claim, memo))
+    chosen = [False] * len(cv)
+    changed = True
+    while changed:
+        changed = False
+        for i, (vs, c) in enumerate(cv):
+            if not chosen[i] and (vs & reach or not vs):
+                chosen[i] = True
+                if not vs <= reach:
+                    reach |= vs
+                    changed = True
+    out = [c for (vs, c), ch in zip(cv, chosen) if ch]
+    # axioms never extend the cone: keep those that only talk about atoms already in it
+    for a in axioms:
+        if _vars(a, memo) <= reach:
+            out.append(a)
+    return out
 
 
 def _case_repr(case):
